@@ -101,6 +101,10 @@ type faultRun struct {
 
 // runFault executes the scenario once with one fault and emits the life-cycle events.
 func runFault(sc *scn.Scenario, em func(vt.Ev), mode string, k int64, baseline *faultRun) *faultRun {
+	// "<mode>+lag": every consumer of a concurrency operator is slow (it pauses before each receive), so the
+	// producers run ahead and hit the fault with their buffers full
+	lag := strings.HasSuffix(mode, "+lag")
+	mode = strings.TrimSuffix(mode, "+lag")
 	gate := strings.TrimPrefix(strings.TrimPrefix(strings.TrimPrefix(mode, "gate:"), "gateq:"), "gatec:")
 	isGate := strings.HasPrefix(mode, "gate:") || strings.HasPrefix(mode, "gateq:") || strings.HasPrefix(mode, "gatec:")
 	viaQuery := strings.HasPrefix(mode, "gateq:") // cancel through Query.Cancel() instead of the caller's context
@@ -168,6 +172,9 @@ func runFault(sc *scn.Scenario, em func(vt.Ev), mode string, k int64, baseline *
 			gateFired = true
 		}
 		pmu.Unlock()
+		if lag && p == "concurrent.next.recv" {
+			time.Sleep(400 * time.Microsecond)
+		}
 		if hit {
 			if viaQuery && qryForGate != nil {
 				qryForGate.Cancel()
@@ -411,7 +418,7 @@ func famFault(sc *scn.Scenario, em func(vt.Ev)) {
 			}
 			continue
 		}
-		for _, k := range pickKs(r, base.n, base.kinds, mode, maxK) {
+		for _, k := range pickKs(r, base.n, base.kinds, strings.TrimSuffix(mode, "+lag"), maxK) {
 			runFault(sc, em, mode, k, base)
 		}
 	}
